@@ -22,7 +22,7 @@ ASSUMPTIONS = [
     "lines of one list hold disjoint groups of the sorted set (the canonical way devices print long lists)",
 ]
 EXHAUSTIVE = {"quick": True, "thorough": False}
-FLOORS = {"quick": {"patches_simulated": 20000, "commands_parsed": 20000, "multi_line_cases": 10000, "helper_roundtrips": 2000, "block_cases": 10000, "block_cases_with_changed_blocks": 5000, "lag_member_cases": 1500, "lists_spelled_with_blanks": 3000, "long_first_lists": 40},
+FLOORS = {"quick": {"patches_simulated": 20000, "commands_parsed": 20000, "multi_line_cases": 10000, "helper_roundtrips": 2000, "block_cases": 10000, "block_cases_with_changed_blocks": 5000, "lag_member_cases": 1500, "lists_spelled_with_blanks": 3000, "long_first_lists": 40, "cases_with_rows_of_another_diff_logic_between_rows_of_the_lists_logic": 2000},
           "thorough": {"patches_simulated": 600000, "commands_parsed": 600000, "multi_line_cases": 300000, "helper_roundtrips": 50000, "block_cases": 300000, "block_cases_with_changed_blocks": 150000, "lag_member_cases": 40000}}
 U_QUICK = [2, 3, 4, 7, 8]
 U_THOROUGH = [2, 3, 4, 7, 8, 10, 11, 20]
@@ -40,6 +40,19 @@ KINDS = {
     "nexus-vlangroup": ("Cisco Nexus 9316", (), "vlan group G1 vlan-list", "cisco", 2),
     "cisco-swtrunk": ("Cisco Catalyst 2960", ("interface GigabitEthernet0/1",), "switchport trunk allowed vlan", "cisco-add", 4),
     "nexus-swtrunk": ("Cisco Nexus 9316", ("interface Ethernet1/1",), "switchport trunk allowed vlan", "cisco-add", 4),
+    "cisco-swtrunk-stacked": ("Cisco Catalyst 2960", ("interface GigabitEthernet1/0/1",), "switchport trunk allowed vlan", "cisco-add", 4),  # (a port of a switch stack: three numbers)
+}
+# rows that stand AFTER the VLAN lines in the same block on both sides, unchanged: first one that the rulebook diffs with another %diff_logic than the
+# VLAN lines, then one more of the VLAN lines' own logic (so the rows of one logic are not contiguous)
+NEIGHBOURS = {
+    "huawei-multi": [("sysname x", []), ("vlan 3999", ["description z"])],
+    "huawei-multi_all-trunk": [("ip source check user-bind enable", []), ("stp edged-port enable", [])],
+    "huawei-multi_all-tagged": [("ip source check user-bind enable", []), ("stp edged-port enable", [])],
+    "huawei-multi_all-untagged": [("ip source check user-bind enable", []), ("stp edged-port enable", [])],
+    "cisco-simple": [("interface GigabitEthernet0/5", ["description x"]), ("router bgp 1", [])],
+    "nexus-simple": [("interface Ethernet1/5", ["description x"]), ("router bgp 1", [])],
+    "cisco-vlangroup": [("interface GigabitEthernet0/5", ["description x"]), ("router bgp 1", [])],
+    "nexus-vlangroup": [("interface Ethernet1/5", ["description x"]), ("router bgp 1", [])],
 }
 
 
@@ -118,7 +131,7 @@ def splittings(elems, maxlines):
             yield [elems[b[i]:b[i + 1]] for i in range(k)]
 
 
-def build_tree(path, lines):
+def build_tree(path, lines, neighbours=()):
     from collections import OrderedDict
     root = OrderedDict()
     node = root
@@ -127,6 +140,8 @@ def build_tree(path, lines):
         node = node[p]
     for ln in lines:
         node[ln] = OrderedDict()
+    for row, ch in neighbours:
+        node[row] = OrderedDict((c, OrderedDict()) for c in ch)
     return root
 
 
@@ -165,7 +180,7 @@ def read_command(cmd, prefix, syntax, neg):
 LAG_LINE = "channel-group 1 mode active"
 
 
-def check_case(kind, old_groups, new_groups, acc, lag=None, spaced=None):
+def check_case(kind, old_groups, new_groups, acc, lag=None, spaced=None, neigh=False):
     """lag: None | 'leaving' | 'joining' | 'staying' - the port is (also) a member of a port-channel on that side;
     spaced: None | 'old' | 'both' - the device (and the generator) spell the list with a blank after each comma, as some IOS versions print it"""
     from annet.api import _diff_and_patch
@@ -183,9 +198,12 @@ def check_case(kind, old_groups, new_groups, acc, lag=None, spaced=None):
         if spaced == "both":
             ln = [x.replace(",", ",  ") for x in ln]
         acc.count("lists_spelled_with_blanks", sum(1 for x in lo + ln if ", " in x))
-    old = build_tree(path, lo + ([LAG_LINE] if lag in ("leaving", "staying") else []))
-    new = build_tree(path, ln + ([LAG_LINE] if lag in ("joining", "staying") else []))
-    w = {"kind": kind, "model": model, "old_groups": old_groups, "new_groups": new_groups, "old_lines": lo, "new_lines": ln, "lag": lag, "spaced": spaced}
+    nb = NEIGHBOURS.get(kind, ()) if neigh else ()
+    if nb:
+        acc.count("cases_with_rows_of_another_diff_logic_between_rows_of_the_lists_logic")
+    old = build_tree(path, lo + ([LAG_LINE] if lag in ("leaving", "staying") else []), nb)
+    new = build_tree(path, ln + ([LAG_LINE] if lag in ("joining", "staying") else []), nb)
+    w = {"kind": kind, "model": model, "old_groups": old_groups, "new_groups": new_groups, "old_lines": lo, "new_lines": ln, "lag": lag, "spaced": spaced, "neigh": neigh}
     if lag:
         acc.count("lag_member_cases")
     try:
@@ -253,6 +271,8 @@ def run_kind(spec, acc):
                 # (NX-OS keeps switchport lines on port-channel members; the Catalyst logic drops them by design: members inherit them)
                 if KINDS[kind][3].startswith("cisco") and i % 3 == 1:
                     check_case(kind, a, b, acc, spaced=("old", "both")[(i // 3) % 2])
+                if kind in NEIGHBOURS and i % 3 == 2:
+                    check_case(kind, a, b, acc, neigh=True)
                 if kind == "nexus-swtrunk" and i % 2 == 0:
                     check_case(kind, a, b, acc, lag=("leaving", "joining", "staying")[(i // 2) % 3])
     # random large sets with chunking (>10 / >5 / >15 ranges per command)
@@ -495,7 +515,7 @@ def run_shard(spec, acc):
             back = lambda side: (side[0], {int(k): v for k, v in side[1].items()})
             check_blocks_case(w["kind"], back(w["old_side"]), back(w["new_side"]), acc)
             return
-        check_case(w["kind"], w["old_groups"], w["new_groups"], acc, lag=w.get("lag"), spaced=w.get("spaced"))
+        check_case(w["kind"], w["old_groups"], w["new_groups"], acc, lag=w.get("lag"), spaced=w.get("spaced"), neigh=bool(w.get("neigh")))
         return
     if spec["mode"] == "blocks":
         return run_blocks(spec, acc)
